@@ -2,16 +2,28 @@
 # tools/confirm_seeded.sh <worktree> <mutant dir name>   -- re-confirm an agent's mutant myself:
 #  demo passes on the clean tree, fails with the patch, and the touched crates' existing lib tests pass with the patch.
 WT="$1"; M="$2"; D="$WT/MUTANTS/$M"
+FEAT="${FEATURES:+--features \"$FEATURES\"}"
+FEAT=""; [ -n "${FEATURES:-}" ] && FEAT="--features=$FEATURES"
 export CARGO_NET_OFFLINE=true CARGO_TARGET_DIR="$WT/target"
 cd "$WT" || exit 2
 git checkout -q -- . ; rm -f cedar-policy/tests/mutant_demo.rs
+if [ -f "$D/demo.sh" ]; then
+  # CLI mutant: the demo is a shell script
+  bash "$D/demo.sh" > "$D/confirm_clean.log" 2>&1; c=$?
+  git apply "$D/patch.diff" || { echo "$M: patch does not apply"; exit 2; }
+  bash "$D/demo.sh" > "$D/confirm_mutant.log" 2>&1; m=$?
+  cargo test --offline -p cedar-policy-cli > "$D/confirm_cli_tests.log" 2>&1; t3=$?
+  git checkout -q -- .
+  echo "$M: demo_on_clean_exit=$c demo_with_mutant_exit=$m cli_tests_exit=$t3 (link_file_cant_read fails on the clean tree too when run as root)"
+  exit 0
+fi
 cp "$D/demo.rs" cedar-policy/tests/mutant_demo.rs
-cargo test --offline -p cedar-policy --test mutant_demo > "$D/confirm_clean.log" 2>&1; c=$?
+cargo test --offline -p cedar-policy $FEAT --test mutant_demo > "$D/confirm_clean.log" 2>&1; c=$?
 git apply "$D/patch.diff" || { echo "$M: patch does not apply"; exit 2; }
-cargo test --offline -p cedar-policy --test mutant_demo > "$D/confirm_mutant.log" 2>&1; m=$?
+cargo test --offline -p cedar-policy $FEAT --test mutant_demo > "$D/confirm_mutant.log" 2>&1; m=$?
 rm -f cedar-policy/tests/mutant_demo.rs
-cargo test --offline -p cedar-policy-core --lib > "$D/confirm_core_tests.log" 2>&1; t1=$?
-cargo test --offline -p cedar-policy --lib > "$D/confirm_api_tests.log" 2>&1; t2=$?
+cargo test --offline -p cedar-policy-core --lib $FEAT > "$D/confirm_core_tests.log" 2>&1; t1=$?
+cargo test --offline -p cedar-policy --lib $FEAT > "$D/confirm_api_tests.log" 2>&1; t2=$?
 t3=0
 if grep -q "cedar-policy-cli/" "$D/patch.diff"; then cargo test --offline -p cedar-policy-cli > "$D/confirm_cli_tests.log" 2>&1; t3=$?; fi
 git checkout -q -- .
